@@ -24,6 +24,10 @@ CFG = {
         "Leptos.Async.C10_paused_stale_until_notified_witness",
         "Leptos.Async.C10_resume_then_write_settles_witness",
         "Leptos.Async.C10_no_renotify_witness",
+        "Leptos.Async.settles_of",
+        "Leptos.Async.Good.write_after_paused_poll",
+        "Leptos.Async.runP_onePause",
+        "Leptos.Async.C10_resume_then_write_settles_partial",
         "Leptos.Async.C10_sync_access_blocks_witness",
         "Leptos.Async.C10_sync_read_blocks_only_while_storing",
         "Leptos.Async.C10_sync_read_is_previous_or_none",
@@ -92,8 +96,12 @@ CFG = {
             "latest; while a notification was consumed under pause and no write followed with the owner running a stale value is allowed: \"until "
             "notified again\"); DEPENDENTS THAT PEEK (effect kinds `dp`/`dq`: `by_ref()` / `.await` polled once with now_or_never() and dropped) during a "
             "first load: every sequence of length <= 4 over {complete, poll 0/1/2, idle, attach} on 7 flavours x 2: the dependent must run again when the "
-            "load has finished; a SYNCHRONOUS OBSERVER (ImmediateEffect reading `.get()`) on every once-resource case: what it saw at its last run (inside "
-            "the completion's notification) must be the loaded value (harness-side oracle clause sync-observer-stale); then "
+            "load has finished; a SYNCHRONOUS OBSERVER (ImmediateEffect reading `.get()`) on every once-resource case and, as cfg effect kind `i`, on every "
+            "AsyncDerived-based flavour (arc/arena sync+unsync, with initial value, through a memo, Resource/ArcResource/blocking, LocalResource/Arc, "
+            "converted handles): every sequence of length <= 3 over {set, refetch, complete, attach, poll 0/1, idle}, also after a first load: what it "
+            "saw at its last run (inside the completion's notification) must be the loaded value (harness-side oracle clause sync-observer-stale); "
+            "a WATCHDOG thread in the harness turns an op that does not return within 10 s (the thread blocked for good) into the verdict "
+            "`fail sync-observer-deadlock`, fills in the rest of the output and ends the run, so a hang is a reported violation, not a stuck check; then "
             "seeded random histories over all flavours (<= 30 ops, <= 4 awaiters); each followed by a settle suffix. Observable after every op: ready "
             "list (task kinds d/e/a/r/t), value and loading flag as the public API shows them, fetches started, inputs captured by the last fetch, what "
             "every awaiter resumed with, every run of the subscriber effect, the boundary's task-list length. Oracle (harness bookkeeping only): value "
@@ -120,12 +128,15 @@ CFG = {
         "Owner::pause/resume is modelled in lean/LeptosModel/Model/AsyncPause.lean (`pollDPaused`, `stepP`, `runP`; the driver calls `pollNthP`), an extension "
         "next to Model/Async.step: the task consumes its notification, keeps its Dirty state, runs nothing. Proved for EVERY state (Theorems/C10Pause.lean): a "
         "paused poll runs nothing; a notification with the owner running always reaches the task; a Dirty task polled with the owner running refetches on the "
-        "current sources; kernel witnesses: stale until notified again, settles after a later write, the seeded no-renotify variant stuck for good. The full "
-        "history-level statement (C10_resume_then_write_settles_open) is stated as an OPEN def, not claimed: the history-level theorems of Theorems/C10.lean are "
+        "current sources; kernel witnesses: stale until notified again, settles after a later write, the seeded no-renotify variant stuck for good. History level: "
+        "C10_resume_then_write_settles_partial (histories with ONE pause under which the task is polled at most once, the write after resume going to a "
+        "source the derived reads; everything else arbitrary): every settled point after the write has loading off and the value for the latest inputs "
+        "(Proofs/AsyncPause.lean: a write after a swallowed notification restores both invariants). The full "
+        "history-level statement (C10_resume_then_write_settles_open: several polls under pause, several pauses) stays an OPEN def, not claimed: the history-level theorems of Theorems/C10.lean are "
         "about histories without `pause` (a paused history leaves the invariant: Dirty with the channel flag cleared); driven after the first run, without effect, manual writes, guards, once/local resources",
         "peeking dependents (`dp`/`dq`) are driven on first loads only (no initial value, no set/refetch/mset: during a reload a peek reads None where get() "
         "reads the old value) and map to the model's effect kind `d`; the synchronous observer (ImmediateEffect) is implementation-side only (separate log, "
-        "oracle clause, once-resources only: on AsyncDerived-based handles a synchronous reader inside notify_subs was not explored)",
+        "oracle clauses; with it no manual writes, guards or pauses are driven)",
         "guards on the value are driven on plain configurations only: no subscriber effect, a fetcher that reads nothing after its await, no manual "
         "write in the same case, not on once / local resources (no by_ref()); while a guard is held, or the derived's task waits for the write lock, "
         "the harness makes no synchronous access (val shows `~`; `bread`/`get`/`hold` are refused): such an access blocks the thread for good "
